@@ -48,3 +48,12 @@ META["C03"] = dict(
     note="Trusts the event classification table and the snapshot stream as observation; manager-level two-party variant is part of C03 parts when present.",
     technique="runtime monitoring: online trace-predicate checker over recorded (event, before, after) steps; state injection for the one-step relation",
 )
+
+META["C02"] = dict(
+    text=("Held on the enumerated product role x terminal status x {same process, reopened} x stimulus (each of the 28 channel events, each counterparty message kind on both "
+          "arrival paths, each transport callback, each API call), in PRNG orders: byte-identical record, identical accessors, silent subscribers, no restart traffic. "
+          "Routes to the terminal status and stimulus orders are sampled."),
+    design_ref="DESIGN.md §2 C02",
+    note="Trusts the recording datastore/transport/network doubles; terminal routes are built by the harness through public API and callbacks.",
+    technique="runtime monitoring: before/after differential oracle (accessors + stored bytes + call logs) over an enumerated stimulus product",
+)
